@@ -58,7 +58,7 @@ def sweep(ctx, n):
 
     rng, fails, done, kinds = ctx.rng, [], 0, {}
     FAULTS = ["none-ok", "missing-dimension", "missing-excitation", "custom-raise", "custom-none", "custom-shape", "custom-scalar",
-              "custom-no-H", "bad-pixel-agg", "bad-output", "bad-in_out", "pixel-shapes", "bad-observer", "dict-kwargs-mix", "left-handed-tetra"]
+              "custom-no-H", "custom-no-func", "bad-pixel-agg", "bad-output", "bad-in_out", "pixel-shapes", "bad-observer", "dict-kwargs-mix", "left-handed-tetra"]
     for i in range(n):
         nps = np.random.default_rng(rng.randrange(2**31))
         fault = FAULTS[i % len(FAULTS)]
@@ -80,8 +80,11 @@ def sweep(ctx, n):
             srcs.append(magpy.magnet.Cuboid(polarization=(1, 2, 3)))
         elif fault == "missing-excitation":
             srcs.append(magpy.current.Circle(diameter=1))
-        elif fault.startswith("custom-") and fault != "custom-no-H":
+        elif fault.startswith("custom-") and fault not in ("custom-no-H", "custom-no-func"):
             srcs.append(magpy.misc.CustomSource(field_func=Faulty(rng.choice([0, 0, 1]), fault.split("-")[1])))
+            field = rng.choice(["B", "H"])
+        elif fault == "custom-no-func":
+            srcs.append(magpy.misc.CustomSource(position=nps.uniform(-1, 1, (rng.choice([1, 2]), 3))))
             field = rng.choice(["B", "H"])
         elif fault == "custom-no-H":
             srcs.append(magpy.misc.CustomSource(field_func=lambda field, observers: np.array(observers) if field == "B" else None))
